@@ -8,11 +8,12 @@ def run(ctx: Ctx):
     n_hist = 60 if ctx.tier == "quick" else 1500
     # (T) regenerate the Python model from runtime.py and re-check the theorems against it
     ctx.translate("gen_runtime")
+    ctx.translate("gen_runtime_cpp")
     ctx.prove("Props/C10.v")
     ctx.make(["Model/RuntimeExec.vo"])
     ctx.trusted += [
         "translator tools/translate/py2v.py + gen_runtime.py (Python ast -> Gallina), validated by bit-exact traces of the regenerated model against runtime.ManagedFilter",
-        "hand model Model/RuntimeCpp.v of ManagedFilter.h::processUpdate, tied by bit-exact traces of the compiled header (g++ -std=c++20, recording Impl)",
+        "translator gen_runtime_cpp.py: the time arithmetic of both processUpdate overloads of ManagedFilter.h is translated (C++ expression parser) and proved equal to Model/RuntimeCpp.v; the tick overloads' skeleton is pinned; additionally tied by bit-exact traces of the compiled header (g++ -std=c++20, recording Impl)",
         "PrimFloat (kernel primitive binary64) as the model of CPython/C++ double arithmetic; vm_compute",
         "exact-arithmetic theorems are over Q; float statement (slack 1e-9 on the bound) is checked on traces, not proved",
     ]
